@@ -417,6 +417,185 @@ def step_jobs(tier, props, module):
 
 
 # ---------------------------------------------------------------------------------------------------
+# deep histories from a reset cache against an executable reference cache: k counted word accesses
+# whose set and tag are symbolic (tags from a domain one larger than the associativity, so hits,
+# fills and evictions in every order are paths).  Independent of the representation invariant and
+# of whatever private state the implementation keeps next to the blocks (memoised look-ups, "last
+# accessed" shortcuts): everything is observed through the public entry points and counters.
+# ---------------------------------------------------------------------------------------------------
+
+
+class RefCache:
+    """Set-associative reference cache: write-back + write-allocate or write-through +
+    no-write-allocate; LRU (least recently used way, never-used ways first in index order) or
+    tree PLRU.  Tags may be symbolic ints: comparisons fork (they are implied by the decisions the
+    implementation already took on the path, or reveal a path the implementation merged)."""
+
+    def __init__(self, g: Geo, repl, write_allocate):
+        self.g, self.repl, self.wa = g, repl, write_allocate
+        self.tags = [[None] * g.ways for _ in range(g.sets)]
+        self.order = [list(range(g.ways)) for _ in range(g.sets)]  # front = next victim
+        self.bits = [[0] * max(g.ways - 1, 0) for _ in range(g.sets)]
+
+    def _touch(self, s, w):
+        if self.repl == "lru":
+            self.order[s].remove(w)
+            self.order[s].append(w)
+        else:
+            n, bits = self.g.ways, self.bits[s]
+            node, lo, hi = 0, 0, n
+            while hi - lo > 1:
+                mid = (lo + hi) // 2
+                if w < mid:
+                    bits[node] = 1  # accessed left: point right
+                    node, hi = 2 * node + 1, mid
+                else:
+                    bits[node] = 0
+                    node, lo = 2 * node + 2, mid
+
+    def victim(self, s):
+        if self.repl == "lru":
+            return self.order[s][0]
+        n, bits = self.g.ways, self.bits[s]
+        node, lo, hi = 0, 0, n
+        while hi - lo > 1:
+            mid = (lo + hi) // 2
+            if bits[node]:
+                node, lo = 2 * node + 2, mid
+            else:
+                node, hi = 2 * node + 1, mid
+        return lo
+
+    def access(self, s, t, is_write):
+        """-> (hit, filled_way or None)"""
+        for w in range(self.g.ways):
+            tw = self.tags[s][w]
+            if tw is not None and bool(tw == t):
+                self._touch(s, w)
+                return True, None
+        if is_write and not self.wa:
+            return False, None
+        w = self.victim(s)
+        self.tags[s][w] = t
+        self._touch(s, w)
+        return False, w
+
+
+def h_deep(e, kind, repl, ib, bb, ways, ops, props):
+    """ops: string over r (counted word read) / w (word write) / i (uncounted word read)."""
+    from architecture_simulator.uarch.memory.memory import Memory, AddressingType
+    from architecture_simulator.uarch.memory.write_back_memory_system import WriteBackMemorySystem
+    from architecture_simulator.uarch.memory.write_through_memory_system import WriteThroughMemorySystem
+    from architecture_simulator.uarch.riscv.riscv_performance_metrics import RiscvPerformanceMetrics
+    from symx.containers import Store, SymMem, SymRange
+    from symx.state import fx
+
+    f = fx()
+    g = Geo(ib, bb, ways)
+    lower = Memory(AddressingType.BYTE, 32, True, range(DATA_MIN, 2**32))
+    store = Store(e, "M0", 32, 8)
+    flat = store.fork()
+    lower.memory_file = SymMem(e, store, f.UInt8, total=True)
+    if e.mode == "sym":
+        lower.address_range = SymRange(DATA_MIN, 2**32)
+    pm = RiscvPerformanceMetrics()
+    penalty = e.int("penalty", 0, 1000)
+    cls = WriteBackMemorySystem if kind == "wb" else WriteThroughMemorySystem
+    cs = cls(memory=lower, num_index_bits=g.ib, num_block_bits=g.bb, associativity=g.ways, performance_metrics=pm, miss_penality=penalty, replacement_strategy=repl)
+    ref = RefCache(g, repl, write_allocate=(kind == "wb"))
+    tag0 = DATA_MIN >> g.shift
+    ntags = ways + 1
+    for k, op in enumerate(ops):
+        t = e.int("t%d" % k, 0, ntags - 1)
+        sidx = e.concretize(e.int("s%d" % k, 0, g.sets - 1)) if g.sets > 1 else 0
+        woff = e.concretize(e.int("o%d" % k, 0, g.words - 1)) if g.words > 1 else 0
+        a = ((tag0 + 1 + t) << g.shift) | (sidx << (g.bb + 2)) | (woff << 2)
+        h0, a0, c0 = cs.hits, cs.accesses, pm.cycles
+        if op == "w":
+            v = e.int("v%d" % k, 0, 2**32 - 1)
+            cs.write_word(a, f.UInt32(v))
+            for i in range(4):
+                flat.set(a + i, (v >> (8 * i)) & 0xFF)
+            got = None
+        else:
+            got = cs.read_word(a, op == "r")
+            want = 0
+            for i in range(4):
+                want = want | (flat.abstract(a + i) << (8 * i))
+            if "C03" in props:
+                e.claim_eq("C03:d%d-read-returns-flat-value" % k, val(got), want)
+            e.observe("got%d" % k, got)
+        if op == "i":
+            # inspection read: no counter, no cycle; the reference cache sees it like a read
+            # (the block is fetched and the policy informed, as the implementation documents)
+            if "C09" in props:
+                e.claim_eq("C09:d%d-uncounted" % k, [cs.accesses, cs.hits, pm.cycles], [a0, h0, c0])
+            ref.access(sidx, t, False)
+            continue
+        hit, _ = ref.access(sidx, t, op == "w")
+        e.observe("hit%d" % k, val(cs.hits) - val(h0))
+        if "C09" in props:
+            e.claim_eq("C09:d%d-accesses+1" % k, cs.accesses, a0 + 1)
+            e.claim_eq("C09:d%d-hit-as-reference" % k, cs.hits, h0 + (1 if hit else 0))
+            e.claim("C09:d%d-last-was-hit" % k, bool(cs.last_was_hit) == hit)
+            e.claim_eq("C09:d%d-penalty-iff-miss" % k, pm.cycles, c0 if hit else c0 + penalty)
+    # final residency and replacement state against the reference
+    A = abstract_state(cs, g)
+    for s_ in range(g.sets):
+        for w in range(g.ways):
+            tw = ref.tags[s_][w]
+            b = A[s_]["ways"][w]
+            for P in ("C09", "C10"):
+                if P in props:
+                    if tw is None:
+                        e.claim("%s:final-way-empty-s%dw%d" % (P, s_, w), lnot(b["valid"]))
+                    else:
+                        e.claim("%s:final-way-holds-reference-block-s%dw%d" % (P, s_, w), land(b["valid"], cond("==", b["tag"], tag0 + 1 + tw)))
+        rs = cs.cache.sets[s_].replacement_strategy
+        for P in ("C09", "C10"):
+            if P in props:
+                e.claim("%s:final-next-victim-s%d" % (P, s_), cond("==", val(rs.get_next_to_replace()), ref.victim(s_)))
+                if repl == "lru":
+                    e.claim("%s:final-lru-order-s%d" % (P, s_), land(*[cond("==", x, y) for x, y in zip(list(rs.lru), ref.order[s_])]))
+                else:
+                    e.claim("%s:final-plru-bits-s%d" % (P, s_), land(*[_iff(bterm(x), bool(y)) for x, y in zip(rs.tree_array, ref.bits[s_])]))
+    for P in ("C09", "C10"):
+        if P in props:
+            e.claim("canary:%s:deep" % P, cond("==", cs.accesses, -1))
+    if "C03" in props:
+        e.claim("canary:C03:deep", cond("==", cs.accesses, -1))
+
+
+def deep_jobs(tier, props, module):
+    out = []
+    if tier == "quick":
+        plan = [((0, 0, 2), ["rrrrr", "rwrrw", "wrirr", "rrwwr"]), ((1, 0, 2), ["rrrr", "wrrw"]), ((0, 1, 2), ["rwrr"]), ((0, 0, 4), ["rrrrr"])]
+    else:
+        import itertools
+
+        all5 = ["".join(t) for t in itertools.product("rw", repeat=5)] + ["rirrr", "wrirr", "rwiwr", "rriwr"]
+        plan = [((0, 0, 2), all5 + ["rrrrrr", "rwrrwr", "wrrwrr"]), ((1, 0, 2), ["rrrrr", "wrrwr", "rwrwr"]), ((0, 1, 2), ["rwrrr", "rrrwr"]), ((0, 0, 4), ["rrrrrr", "rwrrwr"]), ((0, 0, 3), ["rrrrr"])]
+    for (ib, bb, ways), pats in plan:
+        for kind in ("wb", "wt"):
+            for repl in ("lru", "plru"):
+                if repl == "plru" and ways & (ways - 1):
+                    continue
+                for pat in pats:
+                    out.append(
+                        {
+                            "label": "deep-%s-%s-i%db%dw%d-%s" % (kind, repl, ib, bb, ways, pat),
+                            "module": module,
+                            "harness": "deep",
+                            "args": {"kind": kind, "repl": repl, "ib": ib, "bb": bb, "ways": ways, "ops": pat, "props": sorted(props)},
+                            "cost": 30 * ways * len(pat),
+                            "validate_every": 5,
+                            "timeout_ms": 20000,
+                        }
+                    )
+    return out
+
+
+# ---------------------------------------------------------------------------------------------------
 # bounded histories from a reset cache (no invariant assumed): k operations with symbolic
 # addresses/values next to a flat reference memory and a reference cache for the accounting
 # ---------------------------------------------------------------------------------------------------
